@@ -361,6 +361,19 @@ def m_join(ex, st, s, args):
     lst = args[0]
     items = ex.concrete_items(st, lst)
     if items is None:
+        seq = ex.sym_seq(st, lst)
+        if seq is not None and isinstance(seq.eshape, WinShape) and s.concrete() == b"" and seq.eshape.is_str == s.is_str:
+            # join of pieces that are provably adjacent windows of one stream is the enclosing window
+            i = qvar("i")
+            lo = lambda k: seq.elem(k).single_win().lo
+            hi = lambda k: seq.elem(k).single_win().hi
+            adj = And(z3.ForAll([i], Implies(And(seq.lo <= i, i < seq.hi - 1), hi(i) == lo(i + 1))),
+                      z3.ForAll([i], Implies(And(seq.lo <= i, i < seq.hi), lo(i) <= hi(i))))
+            if entails(st.pc, adj, 5000):
+                n = seq.length()
+                a = If(n > 0, lo(seq.lo), iv(0))
+                b = If(n > 0, hi(seq.hi - 1), iv(0))
+                return [ex.res(st, mk_win(seq.eshape.base, a, b, s.is_str, seq.eshape.xf))]
         return [ex.res(st, fresh_str(st, "joined", s.is_str))]
     out = SStr([], s.is_str)
     for k, it in enumerate(items):
